@@ -30,7 +30,7 @@ RE_POP = re.compile(r"POP")
 RE_POP_ALL = re.compile(r"POP_ALL")
 RE_PUSH = re.compile(r"PUSH")
 RE_PUSH_LITERAL = re.compile(r"PUSH_LITERAL")
-RE_RANGE_OP = re.compile(r"..")
+RE_RANGE_OP = re.compile(r"\.\.")
 RE_RULE_DOC = re.compile(r"///")
 RE_TAG = re.compile(r"#[_a-zA-z][_a-zA-Z0-9]+(?=\s*=)")
 RE_WHITESPACE = re.compile(r"[ \t\n\r]+")
@@ -226,13 +226,13 @@ class Scanner:
             self.emit(TokenKind.ASSIGN_OP, self.next())
             self.skip_trivia()
 
-        if self.peek() == "&":
-            self.emit(TokenKind.POSITIVE_PREDICATE, self.next())
-            self.skip_trivia()
-        elif self.peek() == "!":
-            while self.peek() == "!":
+        # Any number of prefix operators, in any order.
+        while self.peek() in ("&", "!"):
+            if self.peek() == "&":
+                self.emit(TokenKind.POSITIVE_PREDICATE, self.next())
+            else:
                 self.emit(TokenKind.NEGATIVE_PREDICATE, self.next())
-                self.skip_trivia()
+            self.skip_trivia()
 
         if self.accept_terminal():
             self.accept_postfix_op()
@@ -368,7 +368,18 @@ class Scanner:
         return False
 
     def accept_postfix_op(self) -> None:
+        """Accept any number of postfix operators."""
+        while self.accept_one_postfix_op():
+            pass
+
+    def accept_one_postfix_op(self) -> bool:
+        # Trivia may separate a term from its postfix operators.
+        pos = self.pos
+        self.skip_trivia()
         ch = self.peek()
+        if ch not in ("?", "*", "+", "{"):
+            self.pos = self.start = pos
+            return False
 
         if ch == "?":
             self.emit(TokenKind.OPTION_OP, self.next())
@@ -393,6 +404,8 @@ class Scanner:
                 self.emit(TokenKind.RBRACE, self.next())
             else:
                 self.error("expected a closing brace")
+
+        return True
 
     def accept_string(self) -> bool:
         if self.peek() != '"':
